@@ -584,6 +584,24 @@ pub struct SearchStream<'a, S, A> {
     pub res: Option<LdapResult>,
 }
 
+// One step down the adapter chain, for as long as the value lives. The position is
+// restored when the value is dropped, which also happens if the future of the calling
+// method is dropped while the adapter is waiting.
+struct ChainStep<'s, 'a, S, A>(&'s mut SearchStream<'a, S, A>);
+
+impl<'s, 'a, S, A> ChainStep<'s, 'a, S, A> {
+    fn new(stream: &'s mut SearchStream<'a, S, A>) -> Self {
+        stream.ax += 1;
+        ChainStep(stream)
+    }
+}
+
+impl<S, A> Drop for ChainStep<'_, '_, S, A> {
+    fn drop(&mut self) {
+        self.0.ax -= 1;
+    }
+}
+
 impl<'a, S, A> SearchStream<'a, S, A>
 where
     S: AsRef<str> + Send + Sync + 'a,
@@ -751,9 +769,10 @@ where
         }
         let adapter = self.adapters[self.ax].clone();
         let mut adapter = adapter.lock().await;
-        self.ax += 1;
-        let res = adapter.start(self, base, scope, filter, attrs).await;
-        self.ax -= 1;
+        let res = {
+            let step = ChainStep::new(self);
+            adapter.start(step.0, base, scope, filter, attrs).await
+        };
         if res.is_err() {
             self.state = StreamState::Error;
         }
@@ -780,9 +799,10 @@ where
         }
         let adapter = self.adapters[self.ax].clone();
         let mut adapter = adapter.lock().await;
-        self.ax += 1;
-        let res = adapter.next(self).await;
-        self.ax -= 1;
+        let res = {
+            let step = ChainStep::new(self);
+            adapter.next(step.0).await
+        };
         match res {
             Ok(None) if self.ax == 0 => self.state = StreamState::Done,
             Err(_) => self.state = StreamState::Error,
@@ -815,10 +835,8 @@ where
         }
         let adapter = self.adapters[self.ax].clone();
         let mut adapter = adapter.lock().await;
-        self.ax += 1;
-        let res = adapter.finish(self).await;
-        self.ax -= 1;
-        res
+        let step = ChainStep::new(self);
+        adapter.finish(step.0).await
     }
 
     /// Return a vector of the remaining adapters in the chain at the point
